@@ -1667,7 +1667,12 @@ impl<'a> Gen<'a> {
                     let t = self.trans(declared, true);
                     s.trans.push(t);
                 }
-                if self.p.chance(1, 5) {
+                let ninv = match self.p.below(10) {
+                    0 => 2,
+                    1 | 2 => 1,
+                    _ => 0,
+                };
+                for _ in 0..ninv {
                     self.st.invokes += 1;
                     let mut i = InvokeT::default();
                     match self.p.below(3) {
